@@ -468,6 +468,46 @@ fn static_side(report: &mut Report) -> (u64, u64) {
     (n, accepted)
 }
 
+/// aliasing scenarios with closed-form expectations: cells created in loops and functions,
+/// repeated, passed as arguments, captured, stored in cells, structs, arrays and tuples
+const SCENARIOS: &[(&str, &str)] = &[
+    ("fresh := () -> mut int { return mut 0 }; a := fresh(); b := fresh(); a += 1; (*a, *b, a == b, a == a)", "(1, 0, false, true)"),
+    ("cells := mut [any] []; k := mut 0; while *k < 3 { k += 1; cells += [mut *k] }; arr := *cells; first := arr[0]; (first == arr[1], arr[0] == first)", "(false, true)"),
+    ("rep := [mut 7; 2]; x := rep[0]; x += 1; y := rep[1]; (*y, x == y)", "(8, true)"),
+    ("bump := (p: mut int) -> int { p += 1; return *p }; c := mut 5; r := (bump(c), bump(c)); (r, *c)", "((6, 7), 7)"),
+    ("set := (p: mut (int | string), v: int | string) -> any { return p = v }; c := mut int | string 1; r := (set(c, \"s\"), *c, set(c, 4), *c); r", "(\"s\", \"s\", 4, 4)"),
+    ("c := mut 1; t := (c, [c], struct{ f := c }); q := t.0; q += 1; w := t.1[0]; w *= 10; z := t.2.f; z -= 1; (*c, *q, *w, *z)", "(19, 19, 19, 19)"),
+    ("c := mut 1; cc := mut c; inner := *cc; inner += 1; d := mut 50; cc = d; other := *cc; other += 1; (*c, *d, *cc == d, *cc == c)", "(2, 51, true, false)"),
+    ("mk := () -> () -> int { c := mut 0; return () -> int { c += 1; return *c } }; f := mk(); g := mk(); (f(), f(), g(), f())", "(1, 2, 1, 3)"),
+    ("c := mut 0; incs := [() -> int { c += 1; return *c }, () -> int { c += 10; return *c }]; (incs[0](), incs[1](), incs[0](), *c)", "(1, 11, 12, 12)"),
+    ("c := mut [int] []; c += [1]; snapshot := *c; c += [2]; (snapshot, *c)", "([1], [1, 2])"),
+    ("c := mut 3; r := c *= c += 1; (r, *c)", "(16, 16)"),
+    ("c := mut 3; g := () -> int { c = 100; return 1 }; r := c += g(); (r, *c)", "(101, 101)"),
+    ("c := mut 3; g := () -> int { c = 100; return 0 }; r := c /= g(); r", "error:ZeroDivision"),
+    ("c := mut 3; r := (c <<= 64); r", "error:OverflowShift"),
+    ("c := mut 3; x := *c; c += 1; (x, *c)", "(3, 4)"),
+    ("f := (p: mut int) -> mut int { return p }; c := mut 1; d := f(c); d += 1; (*c, c == d)", "(2, true)"),
+    ("c := mut (int, int) (1, 2); c = ((*c).1, (*c).0); *c", "(2, 1)"),
+    ("c := mut () ->  int () -> int { return 1 }; before := (*c)(); c = () -> int { return 2 }; (before, (*c)())", "(1, 2)"),
+];
+
+fn scenarios(report: &mut Report) -> u64 {
+    for (text, want) in SCENARIOS {
+        let o = core::run_text(text, true, core::QUICK_FUEL);
+        let got = match &o {
+            core::Outcome::Value(v) => canon(v),
+            other => other.tag(),
+        };
+        if got != *want {
+            report.violation(Violation {
+                sig: format!("C13|scenario|{}", text.chars().take(60).collect::<String>().replace('|', "/")),
+                detail: json!({"kind": "program", "stdlib": true, "text": text, "expected": want, "observed": got}),
+            });
+        }
+    }
+    SCENARIOS.len() as u64
+}
+
 pub fn run(tier: &str) -> i32 {
     let thorough = tier == "thorough";
     let mut report = Report::new("C13", tier);
@@ -493,6 +533,7 @@ pub fn run(tier: &str) -> i32 {
     let v = std::mem::take(&mut *shared.violations.lock().unwrap());
     report.violations(v);
     let (static_n, static_accepted) = core::on_big_stack(|| static_side(&mut report));
+    let n_scenarios = core::on_big_stack(|| scenarios(&mut report));
     let transitions = shared.transitions.load(Ordering::Relaxed);
     let outcomes = shared.outcomes.lock().unwrap().len();
     let coverage = json!({
@@ -505,6 +546,7 @@ pub fn run(tier: &str) -> i32 {
         "max_depth_reached": max_depth,
         "ill_typed_actions_rejected_as_expected": shared.rejected_as_expected.load(Ordering::Relaxed),
         "failing_updates_with_expected_error_and_unchanged_cell": shared.errors_as_expected.load(Ordering::Relaxed),
+        "aliasing_scenarios": n_scenarios,
         "static_admissibility_cases": static_n,
         "static_admitted": static_accepted,
         "distinct_outcomes": outcomes,
